@@ -25,14 +25,20 @@ fn rot<T: Clone>(v: &[T], seed: u64, take: usize) -> Vec<T> {
 }
 
 pub fn cfgs(tier: &str, seed: u64) -> Vec<CfgSpec> {
-    let all = CfgSpec::all();
+    let mut all = CfgSpec::all();
     if tier == "thorough" {
+        // period / monitor variants on the base configuration and its opposite
+        all.push(CfgSpec { variant: 1, ..CfgSpec::base() });
+        all.push(CfgSpec { variant: 2, ..CfgSpec::base() });
+        all.push(CfgSpec { treasury: false, oracle: false, same_prefix: true, stopped: false, variant: 1 });
         return all;
     }
     // quick: the base configuration, its opposite, plus one seed-dependent other
-    let mut v = vec![CfgSpec::base(), CfgSpec { treasury: false, oracle: false, same_prefix: true, stopped: false }];
+    let mut v = vec![CfgSpec::base(), CfgSpec { treasury: false, oracle: false, same_prefix: true, stopped: false, variant: 0 }];
     let others: Vec<CfgSpec> = all.into_iter().filter(|c| !v.iter().any(|x| x.name() == c.name())).collect();
     v.extend(rot(&others, seed, 1));
+    // one period / monitor variant (zero periods and no monitor, or 1 s periods and two monitors), seed-dependent
+    v.push(CfgSpec { variant: 1 + (seed % 2) as u8, ..CfgSpec::base() });
     v
 }
 
@@ -191,6 +197,8 @@ pub fn admin_menu() -> Vec<Op> {
         v.push(Op::ReceiveUnstaked { sender: p.clone(), batch: 1, funds: Funds::Native });
         v.push(Op::Withdraw { sender: p.clone(), batch: 1 });
     }
+    // the third user is a configured monitor in configuration variant 2
+    v.push(Op::Breaker { sender: P::U(2) });
     for w in 1..4 {
         v.push(Op::AddValidator { sender: P::Admin, which: w });
         v.push(Op::RemoveValidator { sender: P::Admin, which: w });
@@ -316,7 +324,7 @@ pub fn cases(suite: &str, tier: &str, seed: u64, props: &BTreeSet<String>) -> Ve
         }
         "admin" => {
             // authorization matrix on a structure with packets, batches in every status, and a nomination pending
-            for cfg in [CfgSpec::base(), CfgSpec { treasury: false, oracle: false, same_prefix: false, stopped: true }] {
+            for cfg in [CfgSpec::base(), CfgSpec { treasury: false, oracle: false, same_prefix: false, stopped: true, variant: 0 }, CfgSpec { variant: 1, ..CfgSpec::base() }, CfgSpec { variant: 2, ..CfgSpec::base() }] {
                 for s in scen::core_structures(&cfg).into_iter().filter(|s| s.name.ends_with("/packets") || s.name.ends_with("/rec+sub+pend")) {
                     for op in admin_menu() {
                         out.push(step_case(s.clone(), op, env));
@@ -326,7 +334,7 @@ pub fn cases(suite: &str, tier: &str, seed: u64, props: &BTreeSet<String>) -> Ve
         }
         "halted" => {
             // C10: every value-moving message on a halted contract, from structures where the same step succeeds when running
-            for base in [CfgSpec::base(), CfgSpec { treasury: false, oracle: false, same_prefix: true, stopped: false }] {
+            for base in [CfgSpec::base(), CfgSpec { treasury: false, oracle: false, same_prefix: true, stopped: false, variant: 0 }] {
                 let cfg = CfgSpec { stopped: true, ..base };
                 for s in scen::core_structures(&cfg) {
                     for op in menu(&s) {
@@ -368,7 +376,7 @@ pub fn cases(suite: &str, tier: &str, seed: u64, props: &BTreeSet<String>) -> Ve
         }
         "seq" => {
             // generated operation sequences; the replay (tier "thorough", seed 0) regenerates every name
-            for cfg in [CfgSpec::base(), CfgSpec { treasury: false, oracle: false, same_prefix: false, stopped: false }] {
+            for cfg in [CfgSpec::base(), CfgSpec { treasury: false, oracle: false, same_prefix: false, stopped: false, variant: 0 }] {
                 out.extend(crate::hist::sequences(&cfg, tier, seed));
             }
         }
